@@ -1,6 +1,8 @@
 import Yuiv.Proofs.C12
 import Yuiv.Proofs.C12Rings
 import Yuiv.Proofs.C12Schur
+import Yuiv.Proofs.C12Left
+import Yuiv.Proofs.C12SchurModel
 import Yuiv.Proofs.C12UF
 /-
 C12 — sparse kernels (triangular solve, Schur complement, block splitting) are exact.
@@ -100,7 +102,92 @@ example : ∃ (A Y : SpMat Int) (u v : Nat → Int), UnitTriang true A 2 u v ∧
       | 0 => decide
       | j + 1 => simp [col]
 
+/-- **`solve_triangular_vec`**: `A·x = b` for a sparse right-hand side vector given by its stored entries -/
+theorem solve_vec_correct (hA : UnitTriang upper A n u v) (vec : List (Nat × R))
+    (hrows : ∀ e ∈ vec, e.1 < n) (hnd : (vec.map (·.1)).Nodup) :
+    ∃ es, solveVec upper A n vec = .ok es ∧ (∀ e ∈ es, e.1 < n) ∧ ∀ i, axAt A n es i = colSum vec i :=
+  solveVec_correct hA vec hrows hnd
+
+/-- **`inv_triangular`** returns a right inverse `A·Z = 1` (hence `A` is invertible and `Z = A⁻¹`) -/
+theorem inv_triangular_correct (hA : UnitTriang upper A n u v) :
+    ∃ Z, invTriangular upper A = .ok Z ∧ Z.nrows = n ∧ Z.ncols = n ∧ toMatrix A n n * toMatrix Z n n = 1 ∧
+      IsUnit (toMatrix A n n).det ∧ (toMatrix A n n)⁻¹ = toMatrix Z n n := by
+  obtain ⟨Z, h1, h2, h3, h4⟩ := invTriangular_correct hA
+  exact ⟨Z, h1, h2, h3, h4, (isUnit_of_right_inv _ _ h4).1, (isUnit_of_right_inv _ _ h4).2⟩
+
+/-- **X·A = Y.** `solve_triangular_left` (solve with the transposed matrices, transpose back) -/
+theorem solve_left_correct (hA : UnitTriang upper A n u v) {Y : SpMat R} (hY : WFYL Y n) :
+    ∃ X, solveLeft upper A Y = .ok X ∧ X.nrows = Y.nrows ∧ X.ncols = n ∧
+      toMatrix X Y.nrows n * toMatrix A n n = toMatrix Y Y.nrows n :=
+  solveLeft_correct hA hY
+
+/-- transposition of the CSC model transposes entries and keeps unit-triangularity (other side) -/
+theorem transpose_entry (A : SpMat R) (k i : Nat) (hi : i < A.nrows) :
+    entry (transpose A) k i = if k < A.ncols then entry A i k else 0 := entry_transpose A k i hi
+theorem transpose_unit_triang (hA : UnitTriang upper A n u v) : UnitTriang (!upper) (transpose A) n u v :=
+  hA.transpose
+
 end solve
+
+/-! ### `Schur::from_partial_triangular` (code model) -/
+
+section schurModel
+variable {R : Type} [CommRing R] [Scal R] [LawfulScal R] [Nontrivial R]
+variable {upper : Bool} {M : SpMat R} {r : Nat} {u v : Nat → R}
+
+/-- **S = D − C·A⁻¹·B** for the blocks `A = M[..r, ..r]`, `B = M[..r, r..]`, `C = M[r.., ..r]`, `D = M[r.., r..]`
+of any CSC matrix `M` (stored zeros allowed) whose leading block is unit triangular; no panic; transfer maps
+present iff requested.  Includes `r = 0` and `r = min(m,n)`. -/
+theorem schur_complement_correct (h : SchurInput upper M r u v) (wt : Bool) :
+    ∃ o, schur upper M r wt = .ok o ∧ IsUnit (blkA M r).det ∧
+      toMatrix o.s (M.nrows - r) (M.ncols - r) =
+        blkD M r (M.nrows - r) (M.ncols - r) - blkC M r (M.nrows - r) * (blkA M r)⁻¹ * blkB M r (M.ncols - r) ∧
+      o.src.isSome = wt ∧ o.tgt.isSome = wt :=
+  schur_S h wt
+
+/-- **F_tgt·M·B_src = S, F_src·B_src = 1, F_tgt·B_tgt = 1** for the four matrices the code assembles
+(`proj`, `(-a⁻¹b).stack(id)`, `(-c·a⁻¹).extend_cols(id)`, `incl`), read as block matrices over
+`Fin r ⊕ Fin (m-r)` / `Fin r ⊕ Fin (n-r)` (`bothSplit M = fromBlocks A B C D`). -/
+theorem schur_transfer_maps_correct (h : SchurInput upper M r u v) :
+    ∃ S fs bs ft bt, schur upper M r true = .ok ⟨S, some (fs, bs), some (ft, bt)⟩ ∧
+      colsSplit ft (M.nrows - r) r (M.nrows - r) * bothSplit M r (M.nrows - r) (M.ncols - r) *
+          rowsSplit bs r (M.ncols - r) (M.ncols - r) = toMatrix S (M.nrows - r) (M.ncols - r) ∧
+      colsSplit fs (M.ncols - r) r (M.ncols - r) * rowsSplit bs r (M.ncols - r) (M.ncols - r) = 1 ∧
+      colsSplit ft (M.nrows - r) r (M.nrows - r) * rowsSplit bt r (M.nrows - r) (M.nrows - r) = 1 ∧
+      toMatrix S (M.nrows - r) (M.ncols - r) =
+        blkD M r (M.nrows - r) (M.ncols - r) - blkC M r (M.nrows - r) * (blkA M r)⁻¹ * blkB M r (M.ncols - r) :=
+  schur_transfer_model h
+
+theorem schur_blocks_of_model (M : SpMat R) (r p q : Nat) :
+    bothSplit M r p q = fromBlocks (blkA M r) (blkB M r q) (blkC M r p) (blkD M r p q) := bothSplit_eq M r p q
+
+/-- the hypotheses are satisfiable: a 2×3 integer matrix with leading 1×1 block `[-1]` and a stored zero -/
+example : SchurInput (R := Int) true ⟨2, 3, #[[(0, -1), (1, 2)], [(0, 0), (1, 3)], [(1, 5)]]⟩ 1
+    (fun _ => -1) (fun _ => -1) := by
+  refine ⟨by decide, by decide, ?_, ?_, ?_, ?_, ?_⟩
+  · intro j e he
+    match j with
+    | 0 => simp [col] at he; rcases he with rfl | rfl <;> decide
+    | 1 => simp [col] at he; rcases he with rfl | rfl <;> decide
+    | 2 => simp [col] at he; subst he; decide
+    | j + 3 => simp [col] at he
+  · intro j
+    match j with
+    | 0 => decide
+    | 1 => decide
+    | 2 => decide
+    | j + 3 => simp [col]
+  · intro j hj e he h1 hz
+    have : j = 0 := by omega
+    subst this
+    simp [col] at he
+    rcases he with rfl | rfl <;> simp_all
+  · intro j hj
+    have : j = 0 := by omega
+    subst this; decide
+  · intro j hj; decide
+
+end schurModel
 
 /-! ### lawful scalar instances (the rings the harness exercises) -/
 
